@@ -33,18 +33,24 @@ func (h *killedHandler) handleChildDeath() {
 	if !h.message.Ref.Equals(h.ctx.ref) {
 		// 子 Actor 终止后其路径即被释放，父 Actor 可能在处理该死亡通知之前就已用同名重新创建了子 Actor；
 		// 此时 children 中记录的是新的子 Actor，不能因旧实例的死亡通知而被移除（否则新子 Actor 将脱离父节点的管理）
+		h.ctx.childrenLock.Lock()
 		if current, exists := h.ctx.children[h.message.Ref.GetPath()]; exists && current == h.message.Ref {
 			delete(h.ctx.children, h.message.Ref.GetPath())
 		}
+		childrenCount := len(h.ctx.children)
+		h.ctx.childrenLock.Unlock()
 		h.ctx.executeBehaviorWithRecovery(h.behavior)
-		h.ctx.Logger().Debug("child death", log.Int("children_count", len(h.ctx.children)), log.String("ref", h.ctx.ref.GetPath()), log.String("child", h.message.Ref.GetPath()))
+		h.ctx.Logger().Debug("child death", log.Int("children_count", childrenCount), log.String("ref", h.ctx.ref.GetPath()), log.String("child", h.message.Ref.GetPath()))
 	}
 }
 
 // checkAndMarkKilled 检查并标记为 killed
 func (h *killedHandler) checkAndMarkKilled() {
 	// 如果还有子 Actor，则不处理自身死亡
-	if len(h.ctx.children) != 0 || !atomic.CompareAndSwapInt32(&h.ctx.state, killing, killed) {
+	h.ctx.childrenLock.Lock()
+	childrenCount := len(h.ctx.children)
+	h.ctx.childrenLock.Unlock()
+	if childrenCount != 0 || !atomic.CompareAndSwapInt32(&h.ctx.state, killing, killed) {
 		h.shouldContinue = false
 		return
 	}
